@@ -130,6 +130,12 @@ func (e *SpecEnv) lookupIdent(name string) (Value, bool) {
 	if v, ok := e.bound[name]; ok {
 		return v, true
 	}
+	// now_<param>: the CURRENT value of a parameter that the body reassigns (a bare parameter name is its entry value)
+	if strings.HasPrefix(name, "now_") {
+		if nr, ok := e.st.Names[strings.TrimPrefix(name, "now_")]; ok && !nr.IsAddr {
+			return nr.V, true
+		}
+	}
 	if v, ok := e.vars[name]; ok {
 		return v, true
 	}
